@@ -208,12 +208,13 @@ PROPS = {
                       "not-yet-flushed tail lands in the OLD file (reopen_flushes_into_old_file); after an external delete exactly the deleted file and what was written "
                       "before reopen_output are lost (remove_then_reopen). (reset_flw, all namings before and after) everything logged before a reset remains in the old "
                       "family incl. the buffered tail, everything after is in the new one (reset_stream, reset_separates). (rotation + rename) every file holds a contiguous "
-                      "run of records, every record is in exactly one file (rotation_rename_files). Differential check on histories mixing writes, rotation, external "
+                      "run of records, every record is in exactly one file — for all four naming schemes and any clock (rotation_rename_files, rotation_rename_files_all; "
+                      "direct_path_free: with the direct namings no file exists at the stored path while the descriptor refers to a moved file). Differential check on histories mixing writes, rotation, external "
                       "rename/remove + reopen_output and reset_flw to other families, direct and buffered.",
-        "level_note": "Rotation + external rename is proved in the order-free form (the reading order of moved files is not chronological then) for Numbers/Timestamps. "
+        "level_note": "Rotation + external rename is proved in the order-free form (the reading order of moved files is not chronological then), for every naming scheme. "
                       "Asynchronous mode is outside the property.",
         "correspondence": "Flw model (extRename/extRemove/reopen/reset, archived families) vs FileLogWriter::reopen_outputfile/reset on real files renamed/removed by the harness",
-        "rule": "histories with EXTREN/EXTRM+REOPEN and RESET to another discriminant x no rotation / Numbers / Timestamps x caps incl. tails below the capacity; "
+        "rule": "histories with EXTREN/EXTRM+REOPEN and RESET to another discriminant x no rotation / all four namings x caps incl. tails below the capacity; "
                 "non-trivial = rotation happened or a reopen/reset was executed",
         "trusted": ["OS: an open descriptor follows a renamed file; bytes written to an unlinked file are gone"],
     },
